@@ -243,6 +243,10 @@ func checkC13(c *Ctx, k WKCase) *Verdict {
 	}
 	an, err := band.Load(c.importer(), mat.Module+"/"+mat.UserPkg, p.B.AppDir, c.caseDirs(w.Spec, p.B))
 	if err != nil {
+		if strings.HasPrefix(err.Error(), "parse ") {
+			// a migrated or emitted file that is not even syntactically valid
+			return fail("no-injector:does-not-compile", "unparsable", "the migrated package does not parse: %v", err)
+		}
 		v.Discard, v.Detail = "analyze-error", err.Error()
 		return v
 	}
